@@ -322,7 +322,9 @@ class Rotation(DiscreteAffine, Similarity):
         axis = np.array([0, 0, 1])
         test_vector = np.array([1, 0])
         transformed_vector = np.dot(self.rotation_matrix, test_vector)
-        angle_of_rotation = np.arccos(np.dot(transformed_vector, test_vector))
+        # the cosine can leave [-1, 1] by round-off (e.g. after a composition)
+        cos_angle = np.clip(np.dot(transformed_vector, test_vector), -1.0, 1.0)
+        angle_of_rotation = np.arccos(cos_angle)
         return axis, angle_of_rotation
 
     def _axis_and_angle_of_rotation_3d(self):
